@@ -557,6 +557,28 @@ def lower_ops(ops):
   return out
 
 
+def copy_value(v):
+  import copy
+  try:
+    return copy.deepcopy(v)
+  except Exception:   # pylint: disable=broad-except
+    return v
+
+
+VSPEC_EXTRA = ['callable0', 'callable1', 'callable2', 'type0', 'type1', 'obj0', 'schemaP', 'schemaR', 'schemaS',
+               'schemaT', 'field_desc']
+
+
+def gen_vspec_case(rng):
+  from harness import typing_vocab as tv
+  if rng.chance(0.06):
+    return {'kind': 'vspec', 'extra': rng.choice(VSPEC_EXTRA)}
+  g = tv.SpecGen(rng)
+  d = g.spec(rng.randint(0, 3))
+  probes = g.boundary(d)[:10] + [['N'], ['M']]
+  return {'kind': 'vspec', 'desc': d, 'probes': probes}
+
+
 def stale_mask(ops):
   """For a handle history: True at the positions whose output depends on a stale handle (one
   opened before a later 'w' of the same path) — reads through it, and everything read from a path
@@ -689,6 +711,9 @@ class _Impl:
     self.classes = c05_classes.CLASSES
     self.cls_of_key = {c.__type_name__: c for c in self.classes.values()}
     self.mod = c05_classes
+    from harness import typing_vocab as tv
+    tv._CLS = c05_classes.VOCAB      # module-level twins: nameable in JSON   # pylint: disable=protected-access
+    self.tv = tv
     env = self.env_from_classes()
     if env != ENV:
       raise AssertionError('harness ENV out of sync with harness/c05_classes.py: %s' % json.dumps(env))
@@ -1102,6 +1127,154 @@ class _Impl:
     self.reset_mem()
     return out
 
+  # -- value specs (state = what the public properties show) -----------------------------------
+  def opt_tree(self, v):
+    return {'absent': True} if self.pg.MISSING_VALUE == v else self.to_wire(v)
+
+  def vflags(self, spec):
+    return [bool(spec.is_noneable), self.opt_tree(spec.default), bool(spec.frozen)]
+
+  def vkey_wire(self, ks):
+    T = self.pg.typing
+    if isinstance(ks, T.ConstStrKey):
+      return ['c', ks.text]
+    if isinstance(ks, T.StrKey):
+      return ['k', ks.regex.pattern if ks.regex is not None else None]
+    if isinstance(ks, T.ListKey):
+      return ['lk', ks.min_value, ks.max_value]
+    if isinstance(ks, T.TupleKey):
+      return ['tk', ks.index]
+    return ['?', repr(ks)]
+
+  def vschema_wire(self, schema):
+    fields = []
+    for ks, f in schema.items():
+      md = f.metadata
+      fields.append(['field', self.vkey_wire(ks), self.vs_wire(f.value), f.description,
+                     self.to_wire(md) if md else {'absent': True}])
+    md = schema.metadata
+    return ['schema', fields, schema.name, bool(schema.allow_nonconst_keys),
+            self.to_wire(md) if md else {'absent': True}]
+
+  def vs_wire(self, spec):
+    T = self.pg.typing
+    F = self.vflags(spec)
+    name = lambda c: '%s.%s' % (c.__module__, c.__qualname__)
+    if isinstance(spec, T.Any):
+      return ['any', F]
+    if isinstance(spec, T.Bool):
+      return ['bool', F]
+    if isinstance(spec, T.Int):
+      return ['int', spec.min_value, spec.max_value, F]
+    if isinstance(spec, T.Float):
+      b = lambda x: None if x is None else self.ftok(float(x))
+      return ['float', b(spec.min_value), b(spec.max_value), F]
+    if isinstance(spec, T.Str):
+      return ['str', spec.regex.pattern if spec.regex is not None else None, F]
+    if isinstance(spec, T.Enum):
+      return ['enum', [self.to_wire(v) for v in spec.values], F]
+    if isinstance(spec, T.List):
+      return ['list', self.vs_wire(spec.element.value), spec.min_size, spec.max_size, F]
+    if isinstance(spec, T.Tuple):
+      if spec.fixed_length:
+        return ['tuplef', [self.vs_wire(f.value) for f in spec.elements], F]
+      return ['tuplev', self.vs_wire(spec.elements[0].value), spec.min_size, spec.max_size, F]
+    if isinstance(spec, T.Dict):
+      # the one hidden bit `to_json` consults: was the default given or generated from the schema
+      explicit = (not spec._use_generated_default       # pylint: disable=protected-access
+                  and self.pg.MISSING_VALUE != spec.default)
+      if not explicit:
+        F = [F[0], {'absent': True}, F[2]]
+      return ['dict', self.vschema_wire(spec.schema) if spec.schema is not None else None, explicit, F]
+    if isinstance(spec, T.Object):
+      return ['obj', name(spec.cls), F]
+    if isinstance(spec, T.Type):
+      d = spec.default
+      return ['type', name(spec.type), None if self.pg.MISSING_VALUE == d or d is None else name(d),
+              bool(spec.is_noneable), bool(spec.frozen)]
+    if isinstance(spec, T.Union):
+      return ['union', [self.vs_wire(c) for c in spec.candidates], F]
+    if isinstance(spec, T.Callable):
+      r = spec.return_value
+      return ['callable', [self.vs_wire(a) for a in spec.args], None if r is None else self.vs_wire(r), F]
+    return ['?', type(spec).__name__]
+
+  def vspec_build(self, case):
+    T = self.pg.typing
+    P = self.classes['P']
+    if 'desc' in case:
+      return self.tv.build(case['desc'])
+    return {
+        'callable0': lambda: T.Callable(),
+        'callable1': lambda: T.Callable([T.Int(), T.Str(regex='a.*')], returns=T.Bool()).noneable(),
+        'callable2': lambda: T.Callable([T.List(T.Int())]),
+        'type0': lambda: T.Type(P),
+        'type1': lambda: T.Type(P, default=P).noneable(),
+        'obj0': lambda: T.Object(P).noneable(),
+        'schemaP': lambda: self.classes['P'].__schema__,
+        'schemaR': lambda: self.classes['R'].__schema__,
+        'schemaS': lambda: self.classes['S'].__schema__,
+        'schemaT': lambda: self.classes['T'].__schema__,
+        'field_desc': lambda: T.Dict([T.Field('a', T.Int(), 'a field', {'m': (1, 2)}),
+                                      (T.StrKey(), T.Any())]),
+    }[case['extra']]()
+
+  def vspec_state(self, case):
+    """(state wire, is it inside the model) of the spec / schema of a case; None if it cannot be built."""
+    try:
+      spec = self.vspec_build(case)
+    except (TypeError, ValueError, KeyError):
+      return None
+    T = self.pg.typing
+    w = self.vschema_wire(spec) if isinstance(spec, T.Schema) else self.vs_wire(spec)
+    text = json.dumps(w)
+    return w, not ('"opaque"' in text or '"?"' in text or '"o"' in text or '"nan"' in text), isinstance(spec, T.Schema)
+
+  def vspec(self, case):
+    pg = self.pg
+    T = pg.typing
+    try:
+      spec = self.vspec_build(case)
+    except (TypeError, ValueError, KeyError) as e:
+      return {'build_error': type(e).__name__}
+    is_schema = isinstance(spec, T.Schema)
+    wire = self.vschema_wire if is_schema else self.vs_wire
+    j = self.attempt(lambda: pg.to_json(spec))
+    if 'err' in j:
+      return {'to_json_error': j['err']}
+    loaded = self.attempt(lambda: pg.from_json(pg.to_json(spec)))
+    model = {'json': self.attempt(lambda: self.jv_wire(j['ok'])).get('ok'),
+             'rt': {'ok': wire(loaded['ok'])} if 'ok' in loaded else loaded}
+    problems = []
+    for form, f in (('obj', lambda: pg.from_json(pg.to_json(spec))),
+                    ('str', lambda: pg.from_json_str(pg.to_json_str(spec))),
+                    ('str-indent', lambda: pg.from_json_str(pg.to_json_str(spec, json_indent=2)))):
+      res = self.attempt(f)
+      if 'err' in res:
+        problems.append('[%s] raises %s' % (form, res['err']))
+        continue
+      r = res['ok']
+      if type(r) is not type(spec):
+        problems.append('[%s] type' % form)
+      elif not (r == spec) or not pg.eq(r, spec):
+        problems.append('[%s] not equal' % form)
+      elif wire(r) != wire(spec):
+        problems.append('[%s] public state differs' % form)
+      elif not is_schema:
+        # behavioural equality: apply-probes
+        for pv in case.get('probes', []):
+          v = self.attempt(lambda: self.tv.to_py(pv))
+          if 'err' in v:
+            continue
+          a = self.attempt(lambda: self.tv.from_py(spec.apply(copy_value(v['ok']), allow_partial=True)))
+          b = self.attempt(lambda: self.tv.from_py(r.apply(copy_value(v['ok']), allow_partial=True)))
+          if a != b:
+            problems.append('[%s] apply(%s) differs: %s vs %s' % (form, json.dumps(pv)[:80], a, b))
+            break
+    return {'model': model, 'problems': problems, 'kind': type(spec).__name__,
+            'empty_tuple': '"t": []' in json.dumps(wire(spec)),
+            'empty_fixed_tuple': '["tuplef", []' in json.dumps(wire(spec))}
+
   # -- DNA ---------------------------------------------------------------------------------------
   def py_nest(self, n):
     if isinstance(n, dict):
@@ -1444,6 +1617,8 @@ class C05(Prop):
       yield gen_hstore_case(rng)
     for i in range(300 if quick else 10000):
       yield gen_dna_case(rng)
+    for i in range(400 if quick else 12000):
+      yield gen_vspec_case(rng)
     if not quick:
       yield from self.exhaustive_paths()
     for i in range(n_spec):
@@ -1496,6 +1671,8 @@ class C05(Prop):
       return im.spec(case)
     if k == 'dna':
       return im.dna(case)
+    if k == 'vspec':
+      return im.vspec(case)
     raise AssertionError(k)
 
   def model_request(self, case):
@@ -1523,6 +1700,12 @@ class C05(Prop):
       return {'op': 'store', 'cfg': 'patched', 'ops': ops}
     if k == 'dna':
       return {'op': 'dna', 'nest': case['nest'], 'meta': case['meta'], 'cloneable': case['cloneable']}
+    if k == 'vspec':
+      self.setup_impl()
+      st = C05._impl.vspec_state(case)
+      if st is None or not st[1]:
+        return None
+      return {'op': 'vspec', 'schema' if st[2] else 'spec': st[0]}
     if k == 'hstore':
       ops = []
       for op in case['ops']:
@@ -1579,6 +1762,11 @@ class C05(Prop):
           if x != y:
             return 'op %d %s: impl=%s model=%s' % (i, json.dumps(case['ops'][i])[:120], json.dumps(x)[:200], json.dumps(y)[:200])
       return None
+    if k == 'vspec':
+      if 'model' not in impl_out:
+        return None
+      a, b = impl_out['model'], model_out
+      return None if a == b else 'vspec: impl=%s model=%s' % (json.dumps(a)[:500], json.dumps(b)[:500])
     if k == 'dna':
       a, b = impl_out['model'], model_out
       return None if a == b else 'dna: impl=%s model=%s' % (json.dumps(a)[:400], json.dumps(b)[:400])
@@ -1638,6 +1826,16 @@ class C05(Prop):
       return None
     if k == 'hstore':
       return self.hstore_oracle(case, out['outs'])
+    if k == 'vspec':
+      if out.get('to_json_error'):
+        return {'signature': 'vspec:to_json-raises:' + out['to_json_error'], 'what': json.dumps(case)[:300]}
+      if out.get('problems'):
+        p = out['problems'][0]
+        return {'signature': 'roundtrip:empty-tuple' if out.get('empty_tuple') else
+                             'vspec:tuple-of-size-0' if out.get('empty_fixed_tuple') else
+                             'vspec:' + p.split('] ')[1].split('(')[0].split(':')[0].strip(),
+                'what': '%s: %s' % (json.dumps(case.get('desc') or case.get('extra'))[:300], '; '.join(out['problems']))}
+      return None
     if k == 'dna':
       if 'checks' not in out:
         return None
@@ -1857,6 +2055,8 @@ class C05(Prop):
       return isinstance(case['json'], dict)
     if k == 'dna':
       return isinstance(case['nest'], dict) and 'q' not in case['nest']
+    if k == 'vspec':
+      return 'extra' in case or case['desc']['k'] in ('list', 'tuple', 'dict', 'union')
     if k in ('store', 'hstore'):
       ops = case['ops']
       wrote = set()
@@ -1900,6 +2100,10 @@ class C05(Prop):
     elif k in ('load', 'load_str'):
       rt = out['model']['rt']
       h.append('%s%s:%s' % (k, '+auto_dict' if case.get('auto_dict') else '', 'ok' if 'ok' in rt else rt['err']))
+    elif k == 'vspec':
+      h.append('vspec:' + (out.get('kind') or ('build-error' if 'build_error' in out else 'to_json-error')))
+      if 'model' in out:
+        h.append('vspec:rt=' + ('ok' if 'ok' in out['model']['rt'] else out['model']['rt']['err']))
     elif k == 'dna':
       m = out['model']
       h.append('dna:' + ('rejected-by-constructor' if 'parse' in m else 'rt=' + ('ok' if 'ok' in m['rt'] else m['rt']['err'])))
